@@ -189,6 +189,7 @@ def name_labels(name, lookup, canon):
 def check_raw(p, lookup, text):
     """get_header is case-insensitive and returns the value as sent."""
     p.expect('get_header(%r)' % lookup, lambda: p.req.get_header(lookup), text)
+    p.expect('headers_lower.get(%r)' % lookup.lower(), lambda: p.req.headers_lower.get(lookup.lower()), text)
 
 
 # ======================================================================== Content-Length
@@ -227,6 +228,9 @@ class ContentLength(Suite):
                 p.read('get_header_as_int', lambda: req.get_header_as_int(lookup))
             elif v['kind'] == 'empty':
                 p.expect('content_length', lambda: req.content_length, None)
+                p.read('get_header_as_int', lambda: req.get_header_as_int(lookup))
+            elif v['kind'] == 'invalid':
+                p.read('content_length', lambda: req.content_length)
                 p.read('get_header_as_int', lambda: req.get_header_as_int(lookup))
             else:
                 p.expect('content_length', lambda: req.content_length, v['expect'])
@@ -354,7 +358,7 @@ class Dates(Suite):
                     readers.append((prop, lambda: getattr(req, prop), False))
                 for what, fn, obs in readers:
                     r = p.read(what, fn)
-                    if v['mutated']:
+                    if v['mutated'] or v['form'] == 'edge':
                         continue
                     if v['form'] == 'imf' or obs:
                         _check_dt(p, what, r, v['expect'])
@@ -400,7 +404,7 @@ class ETags(Suite):
     budget = {'quick': 2400, 'thorough': 100000}
 
     def strategy(self, tier):
-        val = st.one_of(st.none(), g.mutate_some(g.etag_values()), g.mutate_some(g.etag_values()))
+        val = g.weighted((1, st.none()), (3, g.mutate_some(g.etag_values())))
         return st.builds(
             lambda im, inm, n1, n2, first: {'if_match': im, 'if_none_match': inm, 'name_im': n1, 'name_inm': n2,
                                             'first': first},
@@ -574,8 +578,7 @@ class ForwardedSuite(Suite):
                 'fwd': fwd, 'xff': xff, 'xreal': xreal, 'xproto': xproto, 'xhost': xhost, 'scheme': scheme,
                 'host': host, 'server': list(server), 'server_mode': smode, 'client': caddr, 'client_mode': cmode,
                 'root_path': root, 'path': path, 'query': query, 'name': name, 'order': order},
-            st.one_of(st.none(), g.mutate_some(g.forwarded_values(), 30), g.mutate_some(g.forwarded_values(), 30),
-                      g.mutate_some(g.forwarded_values(), 30)),
+            g.weighted((1, st.none()), (4, g.mutate_some(g.forwarded_values(), 30))),
             opt(g.mutate_some(g.xff_values(), 20)),
             opt(_client_addrs, 2),
             opt(st.sampled_from(['http', 'https', 'HTTPS', 'Http', 'wss']), 2),
@@ -710,7 +713,7 @@ class HostUrl(Suite):
             lambda host, scheme, smiss, server, smode, root, path, query, name, order: {
                 'host': host, 'scheme': scheme, 'scheme_missing': smiss and scheme == 'http', 'server': list(server),
                 'server_mode': smode, 'root_path': root, 'path': path, 'query': query, 'name': name, 'order': order},
-            st.one_of(st.none(), g.mutate_some(g.host_values(), 25), g.mutate_some(g.host_values(), 25)),
+            g.weighted((1, st.none()), (3, g.mutate_some(g.host_values(), 25))),
             _schemes, st.sampled_from([False, False, False, True]), _servers,
             st.sampled_from(['present', 'present', 'present', 'omit', 'none', 'unix']),
             g.root_paths, g.paths(), g.queries, g.cased('Host'), st.permutations(self.ACCESSORS))
@@ -798,8 +801,9 @@ class Accept(Suite):
     def strategy(self, tier):
         return st.builds(
             lambda v, name, cands: {'value': v, 'name': name, 'candidates': cands},
-            st.one_of(st.none(), st.just({'text': '', 'expect': {'*/*': 1.0}, 'labels': ['accept:empty'], 'mutated': False}),
-                      *([g.mutate_some(g.accept_values(), 30)] * 8)),
+            g.weighted((1, st.none()),
+                       (1, st.just({'text': '', 'expect': {'*/*': 1.0}, 'labels': ['accept:empty'], 'mutated': False})),
+                       (14, g.mutate_some(g.accept_values(), 30))),
             g.cased('Accept'), st.lists(st.sampled_from(_TARGETS), min_size=1, max_size=4, unique=True))
 
     def run(self, case):
